@@ -206,7 +206,28 @@ func invName(c *Clause, i int) string {
 	return normSpace(c.Text)
 }
 
-func (a *act) safeSpec(c *Clause, env *SEnv, st *State) string {
+// safeSpec evaluates a loop clause; a clause that no longer resolves against the code (renamed or removed variable)
+// is dropped and the function is marked degraded: its failed obligations then count only when a replay confirms them.
+func (a *act) safeSpec(c *Clause, env *SEnv, st *State) (out string) {
+	defer func() {
+		if r := recover(); r != nil {
+			if se, ok := r.(specError); ok {
+				msg := fmt.Sprintf("loop clause %q does not resolve: %s", normSpace(c.Text), se.msg)
+				dup := false
+				for _, d := range a.fx.degraded {
+					if d == msg {
+						dup = true
+					}
+				}
+				if !dup {
+					a.fx.degraded = append(a.fx.degraded, msg)
+				}
+				out = "true"
+				return
+			}
+			panic(r)
+		}
+	}()
 	return a.fx.specTerm(c.X, env, st, a.fx.entry, env.pkg)
 }
 
